@@ -4,6 +4,7 @@
 //! per specification action (validated by spec/Trace_Tower.tla).  See harness/src/tower.rs and DESIGN.md section 4.
 
 use std::path::PathBuf;
+use std::sync::atomic::{AtomicU64, Ordering};
 use std::sync::{Arc, Mutex};
 
 use serde_json::{json, Value};
@@ -33,6 +34,10 @@ fn new_node(h0: u32) -> Node {
     Arc::new(Mutex::new(n))
 }
 
+/// progress counter for the watchdog (an op of the code under test that never returns is data: a Hung event)
+static PROGRESS: AtomicU64 = AtomicU64::new(0);
+static CURRENT_OP: Mutex<String> = Mutex::new(String::new());
+
 struct Exec {
     rig: Rig,
     aborted: usize,
@@ -41,6 +46,7 @@ struct Exec {
     in_poll: bool,
     crashed_in_poll: bool,
     hung: bool,
+    while_down: Vec<Value>,
 }
 
 impl Exec {
@@ -64,6 +70,11 @@ impl Exec {
             // a simulated crash: everything in memory is gone; restart on the same data directory and catch up
             self.crashed_in_poll = self.in_poll;
             self.rig.crash();
+            // what happens at the node while the tower is down
+            let down_ops = std::mem::take(&mut self.while_down);
+            for op in down_ops.iter() {
+                self.op(op);
+            }
             let mut ok = self.rig.boot();
             if !ok && std::mem::take(&mut self.rig.rec.lock().unwrap().last_abort) == "crash" {
                 self.rig.crash();
@@ -101,6 +112,8 @@ impl Exec {
             return;
         }
         let name = op["op"].as_str().unwrap();
+        PROGRESS.fetch_add(1, Ordering::SeqCst);
+        *CURRENT_OP.lock().unwrap() = name.to_string();
         match name {
             "boot" => {
                 if !self.rig.boot() && std::mem::take(&mut self.rig.rec.lock().unwrap().last_abort) == "crash" {
@@ -296,6 +309,10 @@ impl Exec {
                         let transient = op["transient"].as_bool().unwrap_or(true);
                         node.faults.block_fail.insert(h, (times, transient));
                     }
+                    "rpc_after" => {
+                        // the transaction RPC interface answers n more calls and then goes away (until rpc_up is set again)
+                        node.faults.rpc_down_after = Some(op["n"].as_u64().unwrap() as usize);
+                    }
                     "rpc" => {
                         let base = node.rpc_calls;
                         for i in op["at"].as_array().unwrap() {
@@ -317,6 +334,31 @@ fn main() {
         std::process::exit(2);
     }
     install_panic_hook();
+    // watchdog: an operation of the code under test that does not return within WATCHDOG_S seconds (asynchronous calls have
+    // their own bounded joins) ends the run with a Hung event; the trace recorded so far is judged
+    let trace_path = args[3].clone();
+    std::thread::spawn(move || {
+        let limit = std::env::var("VERIF_WATCHDOG_S").ok().and_then(|s| s.parse::<u64>().ok()).unwrap_or(40);
+        let mut last = PROGRESS.load(Ordering::SeqCst);
+        let mut since = std::time::Instant::now();
+        loop {
+            std::thread::sleep(std::time::Duration::from_millis(500));
+            let now = PROGRESS.load(Ordering::SeqCst);
+            if now != last {
+                last = now;
+                since = std::time::Instant::now();
+            } else if since.elapsed().as_secs() >= limit {
+                let op = CURRENT_OP.lock().map(|g| g.clone()).unwrap_or_default();
+                use std::io::Write;
+                if let Ok(mut f) = std::fs::OpenOptions::new().append(true).open(&trace_path) {
+                    let _ = writeln!(f, "{}", json!({"act": "Hung", "thread": "main", "op": op, "prop": "C11"}));
+                    let _ = writeln!(f, "{}", json!({"act": "end"}));
+                }
+                println!("{}", json!({"scenarios": 0, "ops": 0, "events": 0, "aborts": 0, "per_scenario": [], "hung": op}));
+                std::process::exit(0);
+            }
+        }
+    });
     let script: Value = serde_json::from_str(&std::fs::read_to_string(&args[2]).expect("cannot read script")).expect("bad script");
     let wd = PathBuf::from(&args[4]);
     std::fs::create_dir_all(&wd).unwrap();
@@ -333,7 +375,7 @@ fn main() {
         let node = new_node(h0);
         match exec.as_mut() {
             None => {
-                exec = Some(Exec { rig: Rig::new(&args[3], db.clone(), cfg, node), aborted: 0, dead: false, in_poll: false, crashed_in_poll: false, hung: false });
+                exec = Some(Exec { rig: Rig::new(&args[3], db.clone(), cfg, node), aborted: 0, dead: false, in_poll: false, crashed_in_poll: false, hung: false, while_down: Vec::new() });
             }
             Some(e) => {
                 e.rig.reset(db.clone(), cfg, node);
@@ -342,6 +384,7 @@ fn main() {
         }
         let e = exec.as_mut().unwrap();
         e.crashed_in_poll = false;
+        e.while_down = sc["while_down"].as_array().cloned().unwrap_or_default();
         e.rig.rec.lock().unwrap().last_abort.clear();
         e.rig.rec.lock().unwrap().emit_plain(json!({"act": "Init", "name": sc["name"], "scenario": i}));
         // crash enumeration: arm the k-th crash point (durable writes and node RPCs) of this scenario, if asked
